@@ -16,6 +16,7 @@ import Driver.ElectricOps
 import Driver.ShaftOps
 import Driver.CompOps
 import Driver.EngineOps
+import Driver.GhgOps
 open Lean Driver
 
 def dispatch (op : String) (j : Json) : Except String Json :=
@@ -30,6 +31,7 @@ def dispatch (op : String) (j : Json) : Except String Json :=
   | "comp" => compOp op j
   | "engine" => engineOp op j
   | "hours" => hoursOp j
+  | "ghg" => ghgOp op j
   | _ => .error s!"unknown op family in '{op}'"
 
 def handle (line : String) : String :=
